@@ -77,6 +77,9 @@ class Runner:
         ctx.hist("nodes", "1-4" if n <= 4 else "5-8" if n <= 8 else "9-32" if n <= 32 else "33-128" if n <= 128
                  else "129-512" if n <= 512 else ">512")
         ctx.hist("components", "1" if ncomp == 1 else "2-4" if ncomp <= 4 else "5+")
+        nulls = sum(1 for e in case["edges"] if e[2] is None)
+        if nulls:
+            ctx.hist("edge rows with NULL probability", min(nulls, 5))
         iters = X.iteration_count(cap) if trace else None
         if iters is not None:
             ctx.hist("iterations", iters if iters < 10 else f"{iters // 10 * 10}+")
@@ -145,6 +148,18 @@ def generate(ctx: Ctx, R: Runner):
                     break
                 if case is not None:
                     R.add(case, trace=True)
+    # edge rows with a NULL match_probability; threshold 0 (a threshold like any other)
+    null_combos = [("standalone", "duckdb", "int", None), ("standalone", "sqlite", "str", None),
+                   ("linker", "duckdb", "int", "dedupe_only"), ("linker", "sqlite", "link", "link_and_dedupe"),
+                   ("standalone", "sqlite", "int", None), ("linker", "duckdb", "link", "link_only")]
+    for i in range(36 if quick else 240):
+        entry, backend, idkind, lt = null_combos[i % len(null_combos)]
+        fam = X.FAMILIES[(7 * i + 1) % len(X.FAMILIES)]
+        for _ in range(20):
+            c = X.build_null_case(rng, fam, rng.choice([3, 5, 8, 12]), entry, backend, idkind, lt)
+            if not (idkind == "link" and entry == "linker" and len({x[0] for x in c["nodes"]}) < 2):
+                R.add(c, trace=(i % 3 == 0))
+                break
     # link jobs on ONE pre-concatenated table with its own source_dataset column, 2-3 datasets, the same
     # unique_id in several datasets (records must still be told apart by (source_dataset, unique_id))
     for i in range(24 if quick else 150):
@@ -301,7 +316,8 @@ def run(ctx: Ctx):
         "(by inspection; the lock-step part of X compares the same tables with the engine)",
         "harness/c05_x.py: id -> rank map (numeric for integer ids, byte order for ASCII strings and sds||'-__-'||uid)",
         "modelled not verified: SQL engines' UNION/GROUP BY/min/JOIN/NOT IN semantics per DESIGN 3b (checked table by "
-        "table on the lock-step sample); match_probability never NULL; edges only mention rows of the node table",
+        "table on the lock-step sample); NULL match_probability modelled as never passing a threshold filter (SQL: NULL >= t "
+        "is not TRUE) and exercised; edges only mention rows of the node table",
         "non-dyadic thresholds (decimal probabilities, fractional match weights through the implementation's conversion): "
         "the model's threshold is the exact rational the engine compares a DOUBLE column against, probed on the 7 doubles "
         "around the literal on an independent connection (DuckDB reads the literal as DECIMAL)",
